@@ -582,7 +582,7 @@ pub fn run(ctx: &Ctx) -> Result<Run, String> {
     let mut transitions = 0;
     for kind in 0..3u8 {
         // the single-slot store needs one more step for "register A, use A, register B, use A"
-        let g = graph::bfs(&Seq { depth: if kind == 2 { depth + 1 } else { depth }, kind, tree_depth: ctx.tier.pick(4, 5) }, ctx.threads);
+        let g = graph::bfs(&Seq { depth: if kind == 2 { depth + 1 } else { depth }, kind, tree_depth: 4 }, ctx.threads);
         states += g.states;
         transitions += g.transitions;
         stats.merge(g.stats);
@@ -598,7 +598,7 @@ pub fn run(ctx: &Ctx) -> Result<Run, String> {
     let n = cs.len() as u64;
     let mut run = Run::from_stats(
         "model_checking",
-        "single register+authenticate+unknown-handle runs for every key-handle length 0..255 and the product challenge/application patterns(4x4, incl. equal) x counter {0,1,2^31,2^32-1} x presence x control byte {0x03, 0x07, 0x08} x further flag bits {none, UV} x {0, 3} CTAP2 assertions with the credential before the U2F authentication x {RefStore, Arc<Mutex<MemoryStore>>, Arc<Mutex<Option<Passkey>>>} (unknown handles: the registered one plus a byte, minus a byte, with a changed byte, and the empty handle); response structs with certificate/handle/signature lengths the authenticator itself never produces encoded directly; every well-formed extended-length request frame (register, authenticate with P1 in {3,7,8} and every handle length, version; with and without trailing Le) parsed back; BFS over sequences of register(h in 2, app in 2) / authenticate(h in 2 + unknown, app in 2) on ONE authenticator instance over the contract store, Arc<Mutex<MemoryStore>> and the single-slot Arc<Mutex<Option<Passkey>>> (a handle whose credential was replaced is unknown again; one step deeper); the complete history tree to depth 4 (thorough 5), histories merged on equal store content beyond that. Signatures are verified with p256 over the byte strings of the U2F raw-message specification; raw encodings are parsed by the harness",
+        "single register+authenticate+unknown-handle runs for every key-handle length 0..255 and the product challenge/application patterns(4x4, incl. equal) x counter {0,1,2^31,2^32-1} x presence x control byte {0x03, 0x07, 0x08} x further flag bits {none, UV} x {0, 3} CTAP2 assertions with the credential before the U2F authentication x {RefStore, Arc<Mutex<MemoryStore>>, Arc<Mutex<Option<Passkey>>>} (unknown handles: the registered one plus a byte, minus a byte, with a changed byte, and the empty handle); response structs with certificate/handle/signature lengths the authenticator itself never produces encoded directly; every well-formed extended-length request frame (register, authenticate with P1 in {3,7,8} and every handle length, version; with and without trailing Le) parsed back; BFS over sequences of register(h in 2, app in 2) / authenticate(h in 2 + unknown, app in 2) on ONE authenticator instance over the contract store, Arc<Mutex<MemoryStore>> and the single-slot Arc<Mutex<Option<Passkey>>> (a handle whose credential was replaced is unknown again; one step deeper); the complete history tree to depth 4, histories merged on equal store content beyond that. Signatures are verified with p256 over the byte strings of the U2F raw-message specification; raw encodings are parsed by the harness",
         true,
         stats,
     );
